@@ -300,6 +300,8 @@ def gen_cases(ctx):
     def add(*a, **kw):
         cases.append(make_case(len(cases) + 1, *a, **kw))
 
+    # a fixed-shape case that the negative controls can always use (uniform grid, TV, pressure, quadratic V0(T))
+    add([0, 10, 20, 30, 40, 50], None, "TV", Fr(2), EOS_NAMES[ctx.seed % 3], rng, "stub", degrees=(2, 2))
     # (a) structural family: every (len(T) <= 8, grid kind, t_max class); shape/pressure cycled (quick) or all
     ci = 0
     for n in range(1, nmax + 1):
